@@ -204,20 +204,28 @@ func checkC06(c *Check) {
 
 	// drainAndResetHoldTimer: Stop, drain on failure, Reset(f.holdTime)
 	if d := p.Fn("fsm.drainAndResetHoldTimer"); d != nil {
+		// decided under the assumption the callers establish (hold time != 0)
 		da := NewAnalysis(p, d)
+		da.OpaqueFields = map[string]bool{"fsm.holdTime": true}
+		da.AtomHook = rangeHook(isHold, isRange(1, posInf))
+		da.EventArgs = p.timerEventArgs
 		da.Run()
-		stops := p.callsIn(d, descIs("time.Timer.Stop"))
 		resets := p.callsIn(d, descIs("time.Timer.Reset"))
-		ok := len(stops) == 1 && len(resets) == 1
-		if ok {
-			ok = instrDominates(stops[0].(ssa.Instruction), resets[0].(ssa.Instruction)) && newPostDom(d).onEveryReturnPath(resets[0].(ssa.Instruction))
-			for _, args := range da.callArgsAt(resets[0]) {
-				if !(len(args) == 2 && isHold(args[1])) {
+		ok := len(resets) >= 1 && len(da.Returns) > 0 && len(da.Undecided) == 0
+		for _, r := range da.Returns {
+			if !r.State.must["call:time.Timer.Reset(holdTimer)"] {
+				ok = false
+			}
+		}
+		for _, rs := range resets {
+			for i, st := range da.At[rs.(ssa.Instruction)] {
+				args := da.callArgsAt(rs)[i]
+				if !st.must["call:time.Timer.Stop(holdTimer)"] || !(len(args) == 2 && isHold(args[1])) {
 					ok = false
 				}
 			}
 		}
-		c.require(ok, "C06.2 timer-arming", "fsm.drainAndResetHoldTimer", "Stop then Reset(f.holdTime)", p.Pos(d.Pos()), "the hold timer is stopped and then reset to the negotiated hold time on every path")
+		c.require(ok, "C06.2 timer-arming", "fsm.drainAndResetHoldTimer", "Stop then Reset(f.holdTime)", p.Pos(d.Pos()), "for a non-zero hold time the hold timer is stopped and then reset to the negotiated hold time on every path")
 		drained := false
 		allInstrs(d, func(in ssa.Instruction) {
 			if u, isU := in.(*ssa.UnOp); isU && u.Op.String() == "<-" && underFailedStop(c, d, in) {
